@@ -85,7 +85,7 @@ PROPS = {
 }
 PROPS['C18'] = dict(modules=['Hagall.Props.C18'], profiles=['latency', 'mixed'], n=(240, 4000), focus={'signedLatency', 'pingResp'},
                     tools=['drive', 'extract', 'wire'], extra=['latency_stats', 'wire_harness'], topics=slice_of(['signedLatency', 'pingResp', 'ping'], outs={'pingReq', 'latencyResp', 'error', 'pingResp'}))
-PROPS['C19'] = dict(modules=['Hagall.Props.C19'], profiles=['malformed', 'mixed'], n=(160, 3000), focus={'receipt'}, tools=['drive', 'extract', 'receipts', 'wire'],
+PROPS['C19'] = dict(modules=['Hagall.Props.C19'], profiles=['malformed', 'mixed'], n=(160, 3000), focus={'receipt'}, tools=['drive', 'extract', 'receipts', 'receipts-nocgo', 'wire'],
                     extra=['receipts_harness', 'wire_harness'], topics=slice_of(['receipt', 'drain'], kinds=[]))
 PROPS['C15'] = dict(modules=['Hagall.Props.C15'], profiles=['mixed'], n=(20, 20), focus=None, tools=['drive', 'extract', 'auth'],
                     extra=['auth_harness'], topics=slice_of([], kinds=[]))
@@ -110,7 +110,7 @@ PROPS['C01'] = dict(modules=['Hagall.Props.C01', 'Hagall.Props.C01Conc', 'Hagall
                     topics=slice_of(ALL_TOPICS + ['disconnect'], outs=RELAYS | {'sessionState', 'vikjaState', 'odalState', 'compAddBcast', 'compDeleteBcast', 'compUpdateBcast'}))
 
 PROPS['C08'] = dict(modules=['Hagall.Props.C08'], profiles=['malformed', 'mixed', 'module', 'latency'], n=(160, 3000), focus=None,
-                    tools=['drive', 'extract', 'wire', 'grid', 'receipts'], extra=['wire_harness', 'conc_explore', 'grid_harness', 'receipts_harness'],
+                    tools=['drive', 'extract', 'wire', 'grid', 'receipts', 'receipts-nocgo'], extra=['wire_harness', 'conc_explore', 'grid_harness', 'receipts_harness'],
                     topics=slice_of(ALL_TOPICS + ['disconnect'], kinds=['outcome', 'state', 'gauge'], pred=lambda d: d.get('kind') != 'delivery'),
                     trusted=['go/cmd/wire (wire-level scenarios, end-state observers)', 'timing: scenario time limits are generous multiples of the configured idle timeout'])
 
